@@ -204,6 +204,11 @@ def _sim_bin(release=False):
 
 def _gen(bin_path, mode, seed, count, steps, out):
     rc, o = vlib.run([bin_path, "random", mode, str(seed), str(count), str(steps), out], timeout=3600)
+    if rc == 3:
+        # the watchdog fired: one step of the code under test never returned; the partial trace ends in
+        # a `hang` event, which no action of the specification matches
+        log("[sim] watchdog: a step of the code under test did not return (hang)")
+        return
     if rc != 0:
         log(o[-3000:])
         raise ToolError(f"mux_sim failed (mode {mode})")
